@@ -14643,6 +14643,8 @@ func (p *parser) visitExprInOut(expr js_ast.Expr, in exprIn) (js_ast.Expr, exprO
 				// "'abc'[1]" => "'b'"
 				if target, ok := e.Target.Data.(*js_ast.EString); ok {
 					if intValue := math.Floor(index.Value); index.Value == intValue && intValue >= 0 && intValue < float64(len(target.Value)) {
+						// The result is a string literal, which is no longer part of any optional chain
+						out.childContainsOptionalChain = false
 						return js_ast.Expr{Loc: expr.Loc, Data: &js_ast.EString{Value: []uint16{target.Value[int(intValue)]}}}, out
 					}
 				}
